@@ -101,7 +101,7 @@ func init() {
 	register(&CheckDef{
 		ID:    "C12",
 		Level: "exploration",
-		Rule:  "part 1: seeded walks of TryLock/TryRLock/CanLock/CanRLock/Unlock/State by 2-4 guards on one real litefs.RWMutex, each result and the resulting guard/mutex states compared with the three-line POSIX specification and the OnLockStateChange callback checked against the specification's transitions; a case is one (abstract guard vector, guard, operation) triple and the evidence reports reached/reachable pairs of the specification's closure. part 2: goroutines in a synctest bubble issue the same operations plus blocking Lock/RLock under a seeded cooperative scheduler; the invoke/return history stamped with driver event numbers is checked with porcupine against the sequential model, and blocking calls must return within one poll interval (fake clock) of the lock becoming free or their context ending; part 3: the same operations at the database's per-owner interface (DB.TryLocks/TryRLocks/CanLock/CanRLock/Unlock on a read-mark lock of a real database) by 2-4 owners with one or two goroutines each (threads of one process share the lock owner, also on its first contact with the database), on a binary in which every acquisition of a sync mutex inside LiteFS is a scheduling point (tools/yieldinst); the history is checked with porcupine against the same specification per owner and at the end the lock must be free; non-trivial = a run with at least one contended operation",
+		Rule:  "part 1: seeded walks of TryLock/TryRLock/CanLock/CanRLock/Unlock/State by 2-4 guards on one real litefs.RWMutex, each result and the resulting guard/mutex states compared with the three-line POSIX specification and the OnLockStateChange callback checked against the specification's transitions; a case is one (abstract guard vector, guard, operation) triple and the evidence reports reached/reachable pairs of the specification's closure. part 2: goroutines in a synctest bubble issue the same operations plus blocking Lock/RLock under a seeded cooperative scheduler; the invoke/return history stamped with driver event numbers is checked with porcupine against the sequential model, and blocking calls must return within one poll interval (fake clock) of the lock becoming free or their context ending; part 3: the same operations at the database's per-owner interface (DB.TryLocks/TryRLocks/CanLock/CanRLock/Unlock on two read-mark locks of a real database, requests naming one of them or both, all or nothing) by 2-4 owners with one or two goroutines each (threads of one process share the lock owner, also on its first contact with the database), on a binary in which every acquisition of a sync mutex inside LiteFS is a scheduling point (tools/yieldinst); the history is checked with porcupine against the same specification per owner and at the end the lock must be free; non-trivial = a run with at least one contended operation",
 		Run:   runC12,
 		NonTrivial: func(r *Run) bool {
 			return r.Stats["c12.contended"] > 0
@@ -115,6 +115,7 @@ func init() {
 type c12Op struct {
 	G  int
 	Op string // lock rlock unlock canlock canrlock state block-lock block-rlock
+	L  int    // part 3: which of the two locks (0, 1) or both (2)
 }
 type c12Out struct {
 	OK    bool
@@ -135,6 +136,68 @@ func runC12(r *Run) {
 	default:
 		r.Cfg["part"] = "owners"
 		c12Owners(r, nG)
+	}
+}
+
+// c12Model2 is the specification for two locks and requests that name one of
+// them or both (all or nothing): the state is one U/S/X per (lock, owner).
+func c12Model2(nG int, relaxed bool) porcupine.Model {
+	locksOf := func(l int) []int {
+		switch l {
+		case 2:
+			return []int{0, 1}
+		case 3:
+			return []int{2}
+		}
+		return []int{l}
+	}
+	return porcupine.Model{
+		Init: func() interface{} { return strings.Repeat("U", 3*nG) },
+		Step: func(state, input, output interface{}) (bool, interface{}) {
+			st := []byte(state.(string))
+			in := input.(c12Op)
+			out := output.(c12Out)
+			spec := func(l int) lockSpec { return lockSpec{st[l*nG : (l+1)*nG]} }
+			switch in.Op {
+			case "lock", "rlock":
+				can := true
+				for _, l := range locksOf(in.L) {
+					if in.Op == "lock" && !spec(l).canX(in.G) || in.Op == "rlock" && !spec(l).canS(in.G) {
+						can = false
+					}
+				}
+				if out.OK != can && !(relaxed && !out.OK) {
+					return false, state
+				}
+				if out.OK {
+					for _, l := range locksOf(in.L) {
+						if in.Op == "lock" {
+							st[l*nG+in.G] = 'X'
+						} else {
+							st[l*nG+in.G] = 'S'
+						}
+					}
+				}
+				return true, string(st)
+			case "unlock":
+				for _, l := range locksOf(in.L) {
+					st[l*nG+in.G] = 'U'
+				}
+				return true, string(st)
+			case "canlock", "canrlock":
+				can := true
+				for _, l := range locksOf(in.L) {
+					if in.Op == "canlock" && !spec(l).canX(in.G) || in.Op == "canrlock" && !spec(l).canS(in.G) {
+						can = false
+					}
+				}
+				return out.OK == can || (relaxed && !out.OK), state
+			}
+			return false, state
+		},
+		DescribeOperation: func(input, output interface{}) string {
+			return fmt.Sprintf("%+v -> %+v", input, output)
+		},
 	}
 }
 
@@ -167,8 +230,14 @@ func c12Owners(r *Run, nOwners int) {
 		r.Inconclusive("no database")
 		return
 	}
-	// a read-mark lock: taking and releasing it has no side effect in LiteFS
-	lockType := []litefs.LockType{litefs.LockTypeRead2}
+	// read-mark locks: taking and releasing them has no side effect in LiteFS.
+	// A request names one of two locks or both (SQLite asks for byte ranges);
+	// a request for both that is refused half-way has to give back what it took.
+	// One owner is one process: SQLite serialises a process's lock requests per
+	// file (the inode's and the shm node's mutex), so an owner has at most one
+	// thread working on the shm locks and one on the database file's lock.
+	lockSets := [][]litefs.LockType{{litefs.LockTypeRead2}, {litefs.LockTypeRead3}, {litefs.LockTypeRead2, litefs.LockTypeRead3}, {litefs.LockTypePending}}
+	lockType := append(append([]litefs.LockType{}, lockSets[2]...), litefs.LockTypePending)
 	s := r.NewSched()
 	s.Stick = t.Range(20, 80)
 	s.MaxTick = 500 * time.Microsecond
@@ -177,19 +246,33 @@ func c12Owners(r *Run, nOwners int) {
 	// goroutines: one or two per owner
 	type thread struct {
 		owner int
+		dbf   bool // works on the database file's lock (else on the shm locks)
 		prog  []string
+		which []int
 	}
 	var threads []*thread
 	for o := 0; o < nOwners; o++ {
-		k := 1 + t.Next(2)
-		for j := 0; j < k; j++ {
-			threads = append(threads, &thread{owner: o})
+		threads = append(threads, &thread{owner: o})
+		if t.Chance(1, 2) {
+			threads = append(threads, &thread{owner: o, dbf: true})
 		}
 	}
 	nops := t.Range(4, 24)
 	for k := 0; k < nops; k++ {
 		th := threads[t.Next(len(threads))]
 		th.prog = append(th.prog, []string{"lock", "rlock", "unlock", "canlock", "canrlock"}[t.Pick([]int{25, 25, 25, 13, 12})])
+		if th.dbf {
+			th.which = append(th.which, 3)
+		} else {
+			w := t.Pick([]int{3, 3, 4})
+			// SQLite's byte-range requests over several locks are exclusive
+			// requests and unlocks (READ1-4, CKPT+RECOVER); shared requests name
+			// one lock
+			if op := th.prog[len(th.prog)-1]; w == 2 && (op == "rlock" || op == "canrlock") {
+				w = t.Next(2)
+			}
+			th.which = append(th.which, w)
+		}
 	}
 	base := uint64(t.Range(1, 1000)) * 1000
 	var mu sync.Mutex
@@ -204,11 +287,12 @@ func c12Owners(r *Run, nOwners int) {
 		s.Go(fmt.Sprintf("o%dt%d", th.owner, ti), func() {
 			defer wg.Done()
 			owner := base + uint64(th.owner)
-			for _, op := range th.prog {
+			for k, op := range th.prog {
 				s.Yield(0, "op", op)
 				if s.stopping.Load() {
 					return
 				}
+				lockType := lockSets[th.which[k]]
 				call := stamp()
 				var out c12Out
 				switch op {
@@ -227,7 +311,7 @@ func c12Owners(r *Run, nOwners int) {
 				}
 				ret := stamp()
 				mu.Lock()
-				ops = append(ops, porcupine.Operation{ClientId: ti, Input: c12Op{th.owner, op}, Call: call, Output: out, Return: ret})
+				ops = append(ops, porcupine.Operation{ClientId: ti, Input: c12Op{G: th.owner, Op: op, L: th.which[k]}, Call: call, Output: out, Return: ret})
 				mu.Unlock()
 			}
 		})
@@ -271,11 +355,21 @@ func c12Owners(r *Run, nOwners int) {
 		r.Count("c12.contended")
 		r.Count("c12.owners.shared-owner")
 	}
-	switch porcupine.CheckOperationsTimeout(c12Model(nOwners), hist, 20*time.Second) {
+	switch porcupine.CheckOperationsTimeout(c12Model2(nOwners, false), hist, 20*time.Second) {
 	case porcupine.Illegal:
 		var lines []string
 		for _, o := range hist {
 			lines = append(lines, fmt.Sprintf("[%d,%d] thread %d %+v -> %+v", o.Call, o.Return, o.ClientId, o.Input, o.Output))
+		}
+		// Is the history explained by refusals alone? A request for several
+		// locks takes them one after the other and gives back what it took when
+		// a later one is refused; while it is in flight another owner can be
+		// refused a lock that nobody ends up holding (a spurious BUSY, which
+		// POSIX's atomic range request never produces). Every grant and every
+		// state reported still has to be right.
+		if porcupine.CheckOperationsTimeout(c12Model2(nOwners, true), hist, 20*time.Second) == porcupine.Ok {
+			r.Failf("c12.owners-spurious-busy", "a lock request was refused although no other owner held the lock in any order of the concurrent requests: it met the locks a multi-lock request of another owner had taken and then gave back (history of %d requests by %d owners):\n%s", len(hist), nOwners, strings.Join(lines, "\n"))
+			break
 		}
 		r.Failf("c12.owners-linearizable", "history of %d lock requests by %d owners (%d threads) on one database lock is not linearizable against the reader/writer specification per owner:\n%s", len(hist), nOwners, len(threads), strings.Join(lines, "\n"))
 	case porcupine.Unknown:
@@ -505,7 +599,7 @@ func c12Concurrent(r *Run, nG int) {
 				}
 				ret := stamp()
 				mu.Lock()
-				ops = append(ops, porcupine.Operation{ClientId: gi, Input: c12Op{gi, op}, Call: call, Output: out, Return: ret})
+				ops = append(ops, porcupine.Operation{ClientId: gi, Input: c12Op{G: gi, Op: op}, Call: call, Output: out, Return: ret})
 				mu.Unlock()
 			}
 		})
